@@ -39,8 +39,15 @@ RULE = (
     "[start, stop) equal the encoder's bookkeeping, stop_i = start_{i+1}, last stop = end of data; "
     "rdop2mats all / which / subset / wildcard; set_position + rdop2nt + rdop2matrix / skipop2matrix / "
     "rdop2record(form, N) for every applicable form / skipop2record / rdop2tabheaders return the "
-    "encoded data and leave tell() at the encoder's next offset.  Non-trivial: some matrix has >= 2 "
-    "stored columns or >= 2 strings in a column, or some record has >= 2 parts."
+    "encoded data and leave tell() at the encoder's next offset.  op4_cutover / op2_cutover "
+    "(enumerated): strings and record parts of 2999 / 3000 / 3001 numbers for every precision x key "
+    "width x byte order x layout / record form (the struct.unpack / numpy.fromfile switch).  Three "
+    "input classes on which the readers deviate from their documentation are isolated in their own "
+    "parts and excluded from (tolerated in) the parts above: op4_sparse_f32 (sparse-mode read of a "
+    "4-byte single precision matrix whose strings all have >= 3000 numbers must still be double "
+    "precision), op2_uint64 (rdop2record('uint') of a 64-bit file with a word >= 2**63), op2_nbytes "
+    "(directory().nbytes = bytes the data block occupies).  Non-trivial: some matrix has >= 2 stored "
+    "columns or >= 2 strings in a column, or some record has >= 2 parts."
 )
 ASSUME = [
     "Python float() / '%E' conversions are correctly rounded (ASCII expectation = float of the written text)",
@@ -51,7 +58,8 @@ ASSUME = [
     "negative row count only with dense or bigmat layouts",
     "64-bit-key OUTPUT4 / 64-bit OUTPUT2 double precision (mtype 2/4) is laid out as the reader documents "
     "(8-byte reals = 1 word); Nastran itself writes mtype 1/3 in that mode (unanchored)",
-    "OP2 records are split only between elements of the requested form; float records hold finite values",
+    "OP2 records are split only between elements of the requested form; float records hold finite values "
+    "(a foreign bit pattern read as reals is compared up to NaN payloads)",
     "directory().headers lists one entry per physical part of a record (as for the Nastran-written "
     "multi-part records of cant_beam.op2), although the docstring says one per record",
     "numpy / scipy.sparse conversions are correct; files live in a tmpfs scratch directory",
@@ -248,8 +256,13 @@ def oracle_op4(case, R):
         if sp.issparse(got):
             ok_shape = got.shape == ref.shape
             got = np.asarray(got.toarray())
-            if f32class[k] and not case.get("isolate_f32") and got.dtype != ref.dtype:
-                R.label("sparse_f32_class_tolerated")
+            if f32class[k] and got.dtype != ref.dtype:
+                if case.get("isolate_f32"):
+                    R.fail("sparse_read_not_double_precision",
+                           f"{tag} read of matrix {k} ({mats[k]['layout']}, mtype {mtypes[k]}) returned dtype "
+                           f"{got.dtype}; the module reads all matrices in as double precision ({ref.dtype})")
+                else:
+                    R.label("sparse_f32_class_tolerated")
                 got = got.astype(ref.dtype)
             if got.dtype != ref.dtype and not np.any(ref):
                 # no stored entry: a sparse result cannot carry the complex dtype
